@@ -953,6 +953,12 @@ class Executor(Generic[TContext]):
             abort = ensure_future(abort_signal.wait())
             try:
                 await wait({task, abort}, return_when=FIRST_COMPLETED)
+            except BaseException:
+                # the waiter itself was cancelled: do not orphan the awaited task
+                task.cancel()
+                with suppress(BaseException):
+                    await task
+                raise
             finally:
                 if not abort.done():
                     abort.cancel()
@@ -961,8 +967,8 @@ class Executor(Generic[TContext]):
         # The abort signal fired (possibly in the same tick the task settled);
         # discard any task result and reject with the abort reason.
         task.cancel()
-        with suppress(BaseException):
-            await task
+        # (gather does not swallow a cancellation of the waiter itself)
+        await gather(task, return_exceptions=True)
         raise self.abort_error()
 
     def abort_error(self) -> Exception:
